@@ -927,6 +927,12 @@ func zeroRoot(v ssa.Value) ssa.Value {
 					v = ms.Len
 					continue
 				}
+				// len(helper(...)) where every non-error return of the same-module helper is make([]T, param):
+				// the length is the argument passed for that parameter
+				if arg := madeFromArg(x.Call.Args[0]); arg != nil {
+					v = arg
+					continue
+				}
 			}
 			return v
 		default:
@@ -1420,4 +1426,71 @@ func addrUsesDepth(v ssa.Value, depth int) (write, read bool) {
 		}
 	}
 	return
+}
+
+// madeFromArg: slice value sv is result #k of a call to a same-module helper whose every return with a
+// non-nil result #k returns make([]T, p) for one parameter p; returns the call's argument for p, else nil.
+func madeFromArg(sv ssa.Value) ssa.Value {
+	var call *ssa.Call
+	idx := 0
+	switch x := sv.(type) {
+	case *ssa.Call:
+		call = x
+	case *ssa.Extract:
+		c, ok := x.Tuple.(*ssa.Call)
+		if !ok {
+			return nil
+		}
+		call, idx = c, x.Index
+	default:
+		return nil
+	}
+	g := call.Call.StaticCallee()
+	if g == nil || g.Blocks == nil || fnPkg(g) == nil || !inModule(fnPkg(g).Path()) {
+		return nil
+	}
+	argIdx := -1
+	for _, b := range g.Blocks {
+		if len(b.Instrs) == 0 {
+			continue
+		}
+		ret, ok := b.Instrs[len(b.Instrs)-1].(*ssa.Return)
+		if !ok || idx >= len(ret.Results) {
+			continue
+		}
+		rv := ret.Results[idx]
+		if isNilConst(rv) {
+			continue
+		}
+		ms, ok := rv.(*ssa.MakeSlice)
+		if !ok {
+			return nil
+		}
+		ln := ms.Len
+		for {
+			if cv, ok := ln.(*ssa.Convert); ok {
+				ln = cv.X
+				continue
+			}
+			break
+		}
+		par, ok := ln.(*ssa.Parameter)
+		if !ok {
+			return nil
+		}
+		k := -1
+		for i, q := range g.Params {
+			if q == par {
+				k = i
+			}
+		}
+		if k < 0 || (argIdx >= 0 && argIdx != k) {
+			return nil
+		}
+		argIdx = k
+	}
+	if argIdx < 0 || argIdx >= len(call.Call.Args) {
+		return nil
+	}
+	return call.Call.Args[argIdx]
 }
